@@ -60,11 +60,21 @@ func c05GenScalarKind(rt *rapid.T, allowDur bool) string {
 	return k
 }
 
-func c05GenElem(rt *rapid.T, cfg *c05GenCfg, depth int, inMap bool) *c05Typ {
+// c05GenElem: element type of a slice or map; cdepth counts the collections
+// already entered (a field []T has cdepth 1), so [][]struct, []map[string]struct,
+// map[string][]struct, [][]map[string]T ... are generated up to three levels.
+func c05GenElem(rt *rapid.T, cfg *c05GenCfg, depth, cdepth int) *c05Typ {
 	names := []string{"scalar", "pscalar", "struct", "pstruct", "slice", "map"}
-	weights := []int{60, 6, 12, 5, 9, 8}
+	weights := []int{50, 6, 14, 5, 14, 11}
 	if depth >= cfg.maxDepth {
 		weights[2], weights[3] = 0, 0
+	}
+	if cdepth >= 3 {
+		weights[4], weights[5] = 0, 0
+	}
+	if cdepth >= 2 {
+		// the innermost levels are where structs are interesting (keys inside lists of lists)
+		weights[2] *= 3
 	}
 	switch c05W(rt, "elem", names, weights) {
 	case "pscalar":
@@ -74,9 +84,9 @@ func c05GenElem(rt *rapid.T, cfg *c05GenCfg, depth int, inMap bool) *c05Typ {
 	case "pstruct":
 		return &c05Typ{K: "struct", P: true, F: c05GenFields(rt, cfg, depth+1, 3, "")}
 	case "slice":
-		return &c05Typ{K: "slice", E: &c05Typ{K: c05GenScalarKind(rt, false)}}
+		return &c05Typ{K: "slice", E: c05GenElem(rt, cfg, depth, cdepth+1)}
 	case "map":
-		return &c05Typ{K: "map", E: &c05Typ{K: c05GenScalarKind(rt, false)}}
+		return &c05Typ{K: "map", E: c05GenElem(rt, cfg, depth, cdepth+1)}
 	}
 	return &c05Typ{K: c05GenScalarKind(rt, false)}
 }
@@ -113,9 +123,9 @@ func c05GenField(rt *rapid.T, cfg *c05GenCfg, depth int, prefix string, idx int)
 	case "pscalar":
 		f.T = c05Typ{K: c05GenScalarKind(rt, true), P: true}
 	case "slice":
-		f.T = c05Typ{K: "slice", E: c05GenElem(rt, cfg, depth, false)}
+		f.T = c05Typ{K: "slice", E: c05GenElem(rt, cfg, depth, 1)}
 	case "map":
-		f.T = c05Typ{K: "map", E: c05GenElem(rt, cfg, depth, true)}
+		f.T = c05Typ{K: "map", E: c05GenElem(rt, cfg, depth, 1)}
 	case "struct":
 		f.T = c05Typ{K: "struct", F: c05GenFields(rt, cfg, depth+1, 4, "")}
 	case "pstruct":
@@ -145,10 +155,62 @@ func c05GenField(rt *rapid.T, cfg *c05GenCfg, depth int, prefix string, idx int)
 	f.Tag = cfg.tag
 	f.KS = c05Pick(rt, "keystyle", cfg.keyStyles)
 	c05GenOptions(rt, &f)
+	if depth > 1 && prefix == "" && c05IsScalar(f.T.K) && !f.Env && !f.Inh && rapid.IntRange(0, 5).Draw(rt, "nestedinherit") == 0 {
+		// fields of nested structs: inherit is only observable there
+		f.Inh = true
+		f.W = append([]string{"inh"}, f.W...)
+	}
 	return f
 }
 
 func c05GenOptions(rt *rapid.T, f *c05Fld) {
+	c05GenOptionsBase(rt, f)
+	if !c05IsScalar(f.T.K) {
+		return
+	}
+	switch c05W(rt, "source", []string{"doc", "env", "inherit"}, []int{78, 14, 8}) {
+	case "inherit":
+		if !f.T.P || rapid.Bool().Draw(rt, "inhptr") {
+			f.Inh = true
+			// the key is also written into enclosing objects: keep it distinct from every declared key there
+			f.W = append([]string{"inh"}, f.W...)
+		}
+	case "env":
+		if f.T.P && rapid.IntRange(0, 3).Draw(rt, "envptr") != 0 {
+			return
+		}
+		f.Env = true
+		var v string
+		switch c05W(rt, "envstate", []string{"unset", "empty", "plain", "boundary", "garbage"}, []int{25, 5, 35, 28, 7}) {
+		case "unset":
+			return
+		case "empty":
+		case "garbage":
+			v = c05Pick(rt, "envgarbage", []string{"bad", " 5", "5 ", "+5", "0x10", "1_0", "T", "yes", "Inf", "1h", "{}"})
+		case "boundary":
+			g := &c05DocGen{rt: rt}
+			ff := *f
+			ff.Str = false
+			b := g.boundary(&ff.T, &ff)
+			v = b.S
+			if b.T == "bool" {
+				v = strconv.FormatBool(b.B)
+			}
+		default:
+			g := &c05DocGen{rt: rt, plain: true}
+			ff := *f
+			ff.Str = false
+			b := g.plainValue(&ff.T, &ff, 1)
+			v = b.S
+			if b.T == "bool" {
+				v = strconv.FormatBool(b.B)
+			}
+		}
+		f.EV = &v
+	}
+}
+
+func c05GenOptionsBase(rt *rapid.T, f *c05Fld) {
 	k := f.T.K
 	presence := c05W(rt, "presence", []string{"required", "optional", "default", "both"}, []int{40, 28, 28, 4})
 	if presence == "optional" || presence == "both" {
@@ -557,7 +619,15 @@ func (g *c05DocGen) boundary(t *c05Typ, f *c05Fld) c05JV {
 		}
 		if f != nil && len(f.Opts) > 0 {
 			for _, op := range f.Opts {
-				cc = append(cc, op, op+"0", op+".0")
+				cc = append(cc, op)
+				if strings.Contains(op, ".") {
+					cc = append(cc, op+"0") // same number, other spelling
+				} else {
+					cc = append(cc, op+".0")
+					if op != "0" && op != "-0" {
+						cc = append(cc, op+"0") // ten times the option
+					}
+				}
 				if r, ok := new(big.Rat).SetString(op); ok {
 					up := new(big.Rat).Add(r, big.NewRat(1, 1))
 					cc = append(cc, up.FloatString(c05Dec(up)))
@@ -623,10 +693,92 @@ func (g *c05DocGen) elem(t *c05Typ, depth int) c05JV {
 	return g.plainValue(t, nil, depth)
 }
 
+// c05Canon: keys that conf treats as the same key (and a superset of that).
+func c05Canon(k string) string {
+	return strings.ToLower(strings.NewReplacer("_", "", "-", "").Replace(k))
+}
+
+// inheritExtras: for ",inherit" children of struct-typed fields of this object,
+// the object itself may carry the child's key (added after all declared members;
+// never a key that equals, in any spelling, a declared key of this object or one
+// already present: conf would merge them).
+func (g *c05DocGen) inheritExtras(fs []c05Fld, m *[]c05KV) {
+	taken := map[string]bool{}
+	for i := range *m {
+		taken[c05Canon((*m)[i].K)] = true
+	}
+	var declared func(fs []c05Fld)
+	declared = func(fs []c05Fld) {
+		for i := range fs {
+			if fs[i].Anon {
+				declared(fs[i].T.F)
+			}
+			taken[c05Canon(fs[i].key(i))] = true
+			taken[c05Canon(fs[i].goName(i))] = true
+		}
+	}
+	declared(fs)
+	var children func(cs []c05Fld, own *c05JV)
+	children = func(cs []c05Fld, own *c05JV) {
+		for j := range cs {
+			c := &cs[j]
+			if c.Anon {
+				children(c.T.F, own)
+				continue
+			}
+			if !c.Inh || c.Tag == "" || c.Tag == "-other" {
+				continue
+			}
+			k := c.key(j)
+			if taken[c05Canon(k)] {
+				continue
+			}
+			p := 85
+			if len(own.lookup(k)) > 0 {
+				p = 30
+			}
+			if rapid.IntRange(0, 99).Draw(g.rt, "inheritprovide") >= p {
+				continue
+			}
+			taken[c05Canon(k)] = true
+			cc := *c
+			if g.plain || rapid.IntRange(0, 2).Draw(g.rt, "inhkind") != 0 {
+				sp, sf := g.plain, g.focus
+				g.plain, g.focus = true, false
+				*m = append(*m, c05KV{K: k, V: g.plainValue(&cc.T, &cc, 1)})
+				g.plain, g.focus = sp, sf
+			} else {
+				*m = append(*m, c05KV{K: k, V: g.boundary(&cc.T, &cc)})
+			}
+		}
+	}
+	var parents func(fs []c05Fld)
+	parents = func(fs []c05Fld) {
+		for i := range fs {
+			f := &fs[i]
+			if f.Anon {
+				parents(f.T.F)
+				continue
+			}
+			if f.T.K != "struct" || f.Tag == "-other" {
+				continue
+			}
+			for k := range *m {
+				if (*m)[k].K == f.key(i) && (*m)[k].V.T == "obj" {
+					children(f.T.F, &(*m)[k].V)
+					break
+				}
+			}
+		}
+	}
+	parents(fs)
+}
+
 // object: a document for the fields fs (embedded fields are flattened).
 func (g *c05DocGen) object(fs []c05Fld, depth int) c05JV {
 	var m []c05KV
 	g.members(fs, depth, &m)
+	g.inheritExtras(fs, &m)
 	if !g.plain && rapid.IntRange(0, 9).Draw(g.rt, "extra") == 0 {
 		m = append(m, c05KV{K: c05Pick(g.rt, "xk", []string{"unknown", "X", "", "a.b", "emb"}), V: g.any(1)})
 	}
@@ -676,7 +828,7 @@ func (g *c05DocGen) member(f *c05Fld, i, depth int, m *[]c05KV) {
 		return
 	}
 	key := f.key(i)
-	mayBeAbsent := f.Opt || f.Def != nil
+	mayBeAbsent := f.Opt || f.Def != nil || (f.Inh && depth > 1) || (f.Env && f.EV != nil && *f.EV != "")
 	var names []string
 	var weights []int
 	switch {
